@@ -21,7 +21,10 @@ type RunCtx struct {
 	Scen    *Tape // scenario tape (drawn first)
 	Sched   *Tape // schedule tape (drawn while the run proceeds)
 	Tracing bool
-	Variant int // scenario family variant (set by the property's stratifier)
+	Variant int  // scenario family variant (set by the property's stratifier)
+	Race    bool // race mode: free-running goroutines under the race detector; no functional oracle
+
+	PostBubble []func() // run after the bubble has ended (e.g. checks that use real timers)
 
 	Violations []Violation
 	Hash       uint64
